@@ -67,6 +67,32 @@ def accAst : AccessList → JsExpr → Option JsExpr
     else accAst rest (.index x i)
   | .cons (.expr _ _ _) _, _ => none
 
+def sIndex : Bytes := b!"index"
+def sIsFirst : Bytes := b!"isFirst"
+def sIsLast : Bytes := b!"isLast"
+
+def isLoopName (name : Bytes) : Bool := name == sIndex || name == sIsFirst || name == sIsLast
+
+/-- the last-iteration test of the loop whose frame is `f` (a range loop has a step) -/
+def lastAst (f : Frame) (v : Bytes) : Option JsExpr :=
+  match frameGet? f (Scope.kStep ++ v) with
+  | some step =>
+    (match frameGet? f (Scope.kVar ++ v), frameGet? f (Scope.kLimit ++ v) with
+      | some lv, some lim => some (.loopLastRange lv step lim)
+      | _, _ => none)
+  | none =>
+    (match frameGet? f (Scope.kIndex ++ v), frameGet? f (Scope.kLimit ++ v) with
+      | some idx, some lim => some (.loopLastEach idx lim)
+      | _, _ => none)
+
+/-- index($v) / isFirst($v) / isLast($v) on a loop variable of the scope -/
+def loopAst (sc : Scope) (name : Bytes) : ExprList → Option JsExpr
+  | .cons (.dataRef _ key .nil) .nil =>
+    if name == sIndex then (sc.loopindex key).map .local
+    else if name == sIsFirst then (sc.loopindex key).map .loopFirst
+    else (Scope.loopFrame sc.stack key).bind fun f => lastAst f key
+  | _ => none
+
 /-- the translation, in the generator scope `sc` -/
 def toAst (sc : Scope) : Expr → Option JsExpr
   | .null _ => some .null
@@ -94,7 +120,8 @@ def toAst (sc : Scope) : Expr → Option JsExpr
         | none => .optData key
       (accAst acc base).map fun j => if anyNullSafe acc then .paren j else j
   | .func _ name args =>
-    match args with
+    if isLoopName name then loopAst sc name args
+    else match args with
     | .cons a .nil => match fn1Of name, toAst sc a with
       | some f, some ja => some (.call1 f ja)
       | _, _ => none
@@ -129,6 +156,9 @@ def render : JsExpr → List Piece
   | .call1 .nonNull a => render a ++ [.fixed b!"!= null"]
   | .call2 .min a b => [.fixed b!"Math.min("] ++ render a ++ [.fixed b!","] ++ render b ++ [.fixed b!")"]
   | .call2 .max a b => [.fixed b!"Math.max("] ++ render a ++ [.fixed b!","] ++ render b ++ [.fixed b!")"]
+  | .loopFirst idx => [.fixed b!"(", .ident idx, .fixed b!" == 0)"]
+  | .loopLastEach idx lim => [.fixed b!"(", .ident idx, .fixed b!" == ", .ident lim, .fixed b!" - 1)"]
+  | .loopLastRange v step lim => [.fixed b!"(", .ident v, .fixed b!" + ", .ident step, .fixed b!" >= ", .ident lim, .fixed b!")"]
 
 /-! ## the generator writes `render (toAst sc e)` in every state whose scope is `sc` -/
 
@@ -299,6 +329,91 @@ theorem parts2_runs (sc : Scope) (a b : Expr) (pa pb : List Piece) (ha : RunsSc 
 
 theorem beq_true_eq {a b : Bytes} (h : (a == b) = true) : a = b := by simpa using h
 
+theorem tbl_index : findFunc sIndex = none := rfl
+theorem tbl_isFirst : findFunc sIsFirst = none := rfl
+theorem tbl_isLast : findFunc sIsLast = none := rfl
+
+theorem looplast_render (sc : Scope) (key : Bytes) (f : Frame) (j : JsExpr) (hf : Scope.loopFrame sc.stack key = some f)
+    (hj : lastAst f key = some j) : looplast sc key = render j := by
+  unfold looplast
+  rw [hf]
+  unfold lastAst at hj
+  cases hs : frameGet? f (Scope.kStep ++ key) with
+  | some step =>
+    simp only [hs] at hj ⊢
+    cases hv : frameGet? f (Scope.kVar ++ key) <;> cases hl : frameGet? f (Scope.kLimit ++ key) <;> simp [hv, hl] at hj
+    subst hj
+    simp [identOrEmpty, render]
+  | none =>
+    simp only [hs] at hj ⊢
+    cases hv : frameGet? f (Scope.kIndex ++ key) <;> cases hl : frameGet? f (Scope.kLimit ++ key) <;> simp [hv, hl] at hj
+    subst hj
+    simp [identOrEmpty, render]
+
+/-- index / isFirst / isLast of a loop variable: the generator writes the translation -/
+theorem loop_runs (sc : Scope) (p : Nat) (name : Bytes) (args : ExprList) (j : JsExpr) (hn : isLoopName name = true)
+    (h : loopAst sc name args = some j) : RunsSc sc (walkExpr sk o (.func p name args)) (render j) := by
+  cases args with
+  | nil => simp [loopAst] at h
+  | cons a r =>
+    cases r with
+    | cons _ _ => cases a <;> simp [loopAst] at h
+    | nil =>
+      cases a with
+      | dataRef dp key acc =>
+        cases acc with
+        | cons _ _ => simp [loopAst] at h
+        | nil =>
+          simp only [loopAst] at h
+          unfold walkExpr
+          simp only [isLoopName, Bool.or_eq_true] at hn
+          by_cases h1 : (name == sIndex) = true
+          · have := beq_true_eq h1; subst this
+            simp only [beq_self_eq_true, if_true, Option.map_eq_some_iff] at h
+            obtain ⟨idx, hidx, rfl⟩ := h
+            simp only [tbl_index]
+            refine (RunsSc.seq RunsSc.atOther ?_).cast (List.nil_append _)
+            have : Scope.loopindex sc (loopVarOf (.cons (.dataRef dp key .nil) .nil)) = some idx := hidx
+            simp only [show (sIndex == b!"isFirst") = false from rfl, show (sIndex == b!"isLast") = false from rfl,
+              show (sIndex == b!"index") = true from rfl, Bool.false_eq_true, if_false, if_true]
+            refine RunsSc.bindScope ?_
+            rw [this]
+            exact (RunsSc.emit _).cast (by simp [identOrEmpty, render])
+          · by_cases h2 : (name == sIsFirst) = true
+            · have := beq_true_eq h2; subst this
+              simp only [show (sIsFirst == sIndex) = false from rfl, Bool.false_eq_true, if_false, beq_self_eq_true, if_true,
+                Option.map_eq_some_iff] at h
+              obtain ⟨idx, hidx, rfl⟩ := h
+              simp only [tbl_isFirst]
+              refine (RunsSc.seq RunsSc.atOther ?_).cast (List.nil_append _)
+              have : Scope.loopindex sc (loopVarOf (.cons (.dataRef dp key .nil) .nil)) = some idx := hidx
+              simp only [show (sIsFirst == b!"isFirst") = true from rfl, if_true]
+              refine RunsSc.bindScope ?_
+              rw [this]
+              exact (RunsSc.seq (RunsSc.fx _) (RunsSc.seq (RunsSc.emit _) (RunsSc.fx _))).cast (by simp [identOrEmpty, render])
+            · have h3 : name = sIsLast := by
+                rcases hn with (hn | hn) | hn
+                · exact absurd hn h1
+                · exact absurd hn h2
+                · exact beq_true_eq hn
+              subst h3
+              simp only [show (sIsLast == sIndex) = false from rfl, show (sIsLast == sIsFirst) = false from rfl,
+                Bool.false_eq_true, if_false] at h
+              cases hf : Scope.loopFrame sc.stack key with
+              | none => simp [hf] at h
+              | some f =>
+                simp only [hf, Option.bind_some] at h
+                simp only [tbl_isLast]
+                refine (RunsSc.seq RunsSc.atOther ?_).cast (List.nil_append _)
+                simp only [show (sIsLast == b!"isFirst") = false from rfl, show (sIsLast == b!"isLast") = true from rfl,
+                  Bool.false_eq_true, if_false, if_true]
+                refine RunsSc.bindScope ?_
+                have hl : looplast sc (loopVarOf (.cons (.dataRef dp key .nil) .nil)) = render j :=
+                  looplast_render sc key f j hf h
+                rw [hl]
+                exact RunsSc.emits _
+      | _ => simp [loopAst] at h
+
 /-- PARTIAL (generator ↔ AST, with variables): in every state whose scope is `sc` the generator
     writes exactly the text of the translation, and leaves the scope as it is -/
 theorem walkExpr_renders (sc : Scope) :
@@ -401,6 +516,9 @@ theorem walkExpr_renders (sc : Scope) :
         cases anyNullSafe acc <;> simp [render]
   | .func p name args, j, h => by
     unfold toAst at h
+    split at h
+    · rename_i hn
+      exact loop_runs sk o sc p name args j hn h
     cases args with
     | nil => simp at h
     | cons a r =>
@@ -599,11 +717,61 @@ theorem toJsV_obj {v : Val} {jk : List (Bytes × JVal)} (h : toJsV v = some (.ob
 /-- the environment relation: every visible Soy variable is held, as its JSON image, by the
     JavaScript local the generator's scope assigns to it, or by `opt_data.k` if the scope does not
     bind it (a template parameter, or nothing at all: `undefined` on both sides) -/
-def EnvRel (sc : Scope) (env : Spec.Eval.Env) (jenv : JEnv) : Prop :=
+def VarRel (sc : Scope) (env : Spec.Eval.Env) (jenv : JEnv) : Prop :=
   ∀ k : Bytes, k ≠ sIj → k.contains 36 = false →
     match sc.lookup k with
     | some g => ∃ kv, jenv.locals.find? (·.1 == g) = some kv ∧ toJsV (env.lookup k) = some kv.2
     | none => toJsV (env.lookup k) = some (prop jenv.optData k)
+
+/-- the iteration state of a loop (iteration number `i`, last iteration `last`), as the JavaScript locals named in
+    the loop's frame hold it: the index local is `i`; a foreach's limit local is the length `last + 1`; a range
+    loop's test `v + step >= limit` holds exactly in the last iteration -/
+def FrameRel (f : Frame) (v : Bytes) (i last : Nat) (jenv : JEnv) : Prop :=
+  exact (i : Int) = true ∧
+  (∀ idx, frameGet? f (Scope.kIndex ++ v) = some idx → localNum jenv idx = some (i : Int)) ∧
+  (match frameGet? f (Scope.kStep ++ v) with
+    | none => ∀ lim, frameGet? f (Scope.kLimit ++ v) = some lim → localNum jenv lim = some ((last : Int) + 1)
+    | some step => ∀ lv lim, frameGet? f (Scope.kVar ++ v) = some lv → frameGet? f (Scope.kLimit ++ v) = some lim →
+        ∃ a s l, localNum jenv lv = some a ∧ localNum jenv step = some s ∧ localNum jenv lim = some l ∧
+          decide (l ≤ a + s) = (i == last))
+
+/-- every loop whose frame is open in the generator scope is a loop the Soy environment is in, in the same
+    iteration -/
+def LoopRel (sc : Scope) (env : Spec.Eval.Env) (jenv : JEnv) : Prop :=
+  ∀ v f, Scope.loopFrame sc.stack v = some f →
+    ∃ i last, Spec.Eval.findLoop env.loops v = some (i, last) ∧ FrameRel f v i last jenv
+
+/-- the environment relation: the variables (`VarRel`) and the loops (`LoopRel`) -/
+def EnvRel (sc : Scope) (env : Spec.Eval.Env) (jenv : JEnv) : Prop := VarRel sc env jenv ∧ LoopRel sc env jenv
+
+theorem localNum_of_find {jenv : JEnv} {x : Bytes} {n : Int} (h : jenv.locals.find? (·.1 == x) = some (x, .num n)) :
+    localNum jenv x = some n := by simp [localNum, h]
+
+theorem find_of_localNum {jenv : JEnv} {x : Bytes} {n : Int} (h : localNum jenv x = some n) :
+    ∃ kv, jenv.locals.find? (·.1 == x) = some kv ∧ kv.2 = .num n := by
+  unfold localNum at h
+  split at h
+  · rename_i k i hf
+    simp only [Option.some.injEq] at h
+    subst h
+    exact ⟨_, hf, rfl⟩
+  · cases h
+
+/-- `sc.loopindex v` is the index entry of the loop's frame -/
+theorem loopindex_frame : ∀ (st : List Frame) (v idx : Bytes), Scope.lookupIn st (Scope.kIndex ++ v) = some idx →
+    ∃ f, Scope.loopFrame st v = some f ∧ frameGet? f (Scope.kIndex ++ v) = some idx
+  | [], _, _, h => by simp [Scope.lookupIn] at h
+  | f :: r, v, idx, h => by
+    unfold Scope.lookupIn at h
+    unfold Scope.loopFrame
+    cases hg : frameGet? f (Scope.kIndex ++ v) with
+    | some g =>
+      simp only [hg, Option.some.injEq] at h
+      subst h
+      exact ⟨f, rfl, hg⟩
+    | none =>
+      simp only [hg] at h
+      exact loopindex_frame r v idx h
 
 /-! ## the two semantics agree -/
 
@@ -1096,6 +1264,108 @@ theorem isLoopFn_fn2 {name : Bytes} {f : Fn2} (h : fn2Of name = some f) : Spec.E
 
 /-! ## the theorem -/
 
+/-- index / isFirst / isLast: the iteration counters of the two sides are the same notion -/
+theorem loop_corr (sc : Scope) (env : Spec.Eval.Env) (jenv : JEnv) (hloop : LoopRel sc env jenv) (p : Nat) (name : Bytes)
+    (args : ExprList) (j : JsExpr) (jv : JVal) (hn : isLoopName name = true) (h : loopAst sc name args = some j)
+    (hj : eval jenv j = .val jv) : ∃ v, Spec.Eval.eval env (.func p name args) = .val v ∧ toJsV v = some jv := by
+  cases args with
+  | nil => simp [loopAst] at h
+  | cons a r =>
+    cases r with
+    | cons _ _ => cases a <;> simp [loopAst] at h
+    | nil =>
+      cases a with
+      | dataRef dp key acc =>
+        cases acc with
+        | cons _ _ => simp [loopAst] at h
+        | nil =>
+          simp only [loopAst] at h
+          simp only [isLoopName, Bool.or_eq_true] at hn
+          have hspec : ∀ (i l : Nat), Spec.Eval.findLoop env.loops key = some (i, l) →
+              Spec.Eval.eval env (.func p name (.cons (.dataRef dp key .nil) .nil)) =
+                (if name == Spec.Eval.nIndex then .val (.int i)
+                 else if name == Spec.Eval.nIsFirst then .val (.bool (i == 0)) else .val (.bool (i == l))) := by
+            intro i l hfl
+            have hlf : Spec.Eval.isLoopFn name = true := by
+              simp only [Spec.Eval.isLoopFn, Bool.or_eq_true]
+              exact hn
+            simp [Spec.Eval.eval, hlf, hfl]
+          by_cases h1 : (name == sIndex) = true
+          · have := beq_true_eq h1; subst this
+            simp only [beq_self_eq_true, if_true, Option.map_eq_some_iff] at h
+            obtain ⟨idx, hidx, rfl⟩ := h
+            obtain ⟨f, hf, hget⟩ := loopindex_frame sc.stack key idx hidx
+            obtain ⟨i, last, hfl, hex, hix, _⟩ := hloop key f hf
+            obtain ⟨kv, hfind, hkv⟩ := find_of_localNum (hix idx hget)
+            have : jv = .num i := by
+              simp only [eval, hfind, JOut.val.injEq] at hj
+              rw [← hj, hkv]
+            subst this
+            refine ⟨.int i, ?_, by simp [toJsV, hex]⟩
+            rw [hspec i last hfl]
+            simp [show (sIndex == Spec.Eval.nIndex) = true from rfl]
+          · by_cases h2 : (name == sIsFirst) = true
+            · have := beq_true_eq h2; subst this
+              simp only [show (sIsFirst == sIndex) = false from rfl, Bool.false_eq_true, if_false, beq_self_eq_true, if_true,
+                Option.map_eq_some_iff] at h
+              obtain ⟨idx, hidx, rfl⟩ := h
+              obtain ⟨f, hf, hget⟩ := loopindex_frame sc.stack key idx hidx
+              obtain ⟨i, last, hfl, hex, hix, _⟩ := hloop key f hf
+              simp only [eval, hix idx hget, JOut.val.injEq] at hj
+              subst hj
+              refine ⟨.bool (i == 0), ?_, by
+                have : ((i : Int) == 0) = (i == 0) := by
+                  cases h0 : (i == 0) <;> simp at h0 ⊢ <;> omega
+                simp [toJsV, this]⟩
+              rw [hspec i last hfl]
+              simp [show (sIsFirst == Spec.Eval.nIndex) = false from rfl, show (sIsFirst == Spec.Eval.nIsFirst) = true from rfl]
+            · have h3 : name = sIsLast := by
+                rcases hn with (hn | hn) | hn
+                · exact absurd hn h1
+                · exact absurd hn h2
+                · exact beq_true_eq hn
+              subst h3
+              simp only [show (sIsLast == sIndex) = false from rfl, show (sIsLast == sIsFirst) = false from rfl,
+                Bool.false_eq_true, if_false] at h
+              cases hf : Scope.loopFrame sc.stack key with
+              | none => simp [hf] at h
+              | some f =>
+                simp only [hf, Option.bind_some] at h
+                obtain ⟨i, last, hfl, hex, hix, hlast⟩ := hloop key f hf
+                have hres : jv = .bool (i == last) := by
+                  unfold lastAst at h
+                  cases hs : frameGet? f (Scope.kStep ++ key) with
+                  | some step =>
+                    simp only [hs] at h hlast
+                    cases hv : frameGet? f (Scope.kVar ++ key) <;> cases hl : frameGet? f (Scope.kLimit ++ key) <;>
+                      simp [hv, hl] at h
+                    subst h
+                    rename_i lv lim
+                    obtain ⟨a, st, l, ha, hst, hl', hdec⟩ := hlast lv lim hv hl
+                    simp only [eval, ha, hst, hl'] at hj
+                    obtain ⟨_, _, hj⟩ := bind_val hj
+                    simp only [JOut.val.injEq] at hj
+                    rw [← hj, hdec]
+                  | none =>
+                    simp only [hs] at h hlast
+                    cases hv : frameGet? f (Scope.kIndex ++ key) <;> cases hl : frameGet? f (Scope.kLimit ++ key) <;>
+                      simp [hv, hl] at h
+                    subst h
+                    rename_i idx lim
+                    simp only [eval, hix idx hv, hlast lim hl] at hj
+                    obtain ⟨_, _, hj⟩ := bind_val hj
+                    simp only [JOut.val.injEq] at hj
+                    rw [← hj]
+                    congr 1
+                    have : ((last : Int) + 1 - 1) = (last : Int) := by omega
+                    rw [this]
+                    cases hil : (i == last) <;> simp at hil ⊢ <;> omega
+                subst hres
+                refine ⟨.bool (i == last), ?_, rfl⟩
+                rw [hspec i last hfl]
+                simp [show (sIsLast == Spec.Eval.nIndex) = false from rfl, show (sIsLast == Spec.Eval.nIsFirst) = false from rfl]
+      | _ => simp [loopAst] at h
+
 /-- PARTIAL (C04, expression stage with variables): under the environment relation, whenever the
     JavaScript text the generator writes for an expression of the fragment (`walkExpr_renders`) has
     the value `jv` (semantics of the common subset, Spec/JsSemRef), the Soy specification evaluates
@@ -1297,7 +1567,7 @@ theorem gen_correct_refs_partial (sc : Scope) (env : Spec.Eval.Env) (jenv : JEnv
         have : (key == Spec.Eval.sIj) = false := by simpa [sIj, Spec.Eval.sIj] using hij1
         simp [Spec.Eval.eval, this]
       rw [hspec]
-      have hr := hrel key hkey hdollar
+      have hr := hrel.1 key hkey hdollar
       cases hl : sc.lookup key with
       | none =>
         simp only [hl] at hr hacc
@@ -1308,6 +1578,9 @@ theorem gen_correct_refs_partial (sc : Scope) (env : Spec.Eval.Env) (jenv : JEnv
         exact accAst_corr env jenv acc (.local g) j0 (env.lookup key) kv.2 jv hacc (by simp [eval, hfind]) hkv hj0
   | .func p name args, j, jv, h, hj => by
     unfold toAst at h
+    split at h
+    · rename_i hn
+      exact loop_corr sc env jenv hrel.2 p name args j jv hn h hj
     cases args with
     | nil => simp at h
     | cons a r =>
@@ -1361,18 +1634,34 @@ theorem gen_correct_refs_partial (sc : Scope) (env : Spec.Eval.Env) (jenv : JEnv
     template was entered with -/
 theorem envRel_params (sc : Scope) (env : Spec.Eval.Env) (jenv : JEnv)
     (hsc : ∀ k, sc.lookup k = none) (hdata : toJsKvs env.vars = some jenv.optData) : EnvRel sc env jenv := by
-  intro k _ _
-  rw [hsc k]
-  exact toJsKvs_find env.vars jenv.optData k hdata
+  refine ⟨?_, ?_⟩
+  · intro k _ _
+    rw [hsc k]
+    exact toJsKvs_find env.vars jenv.optData k hdata
+  · intro v f hf
+    exfalso
+    have hnone : ∀ (st : List Frame), Scope.lookupIn st (Scope.kIndex ++ v) = none → Scope.loopFrame st v = none := by
+      intro st
+      induction st with
+      | nil => intro _; rfl
+      | cons g r ih =>
+        intro h
+        unfold Scope.lookupIn at h
+        unfold Scope.loopFrame
+        cases hg : frameGet? g (Scope.kIndex ++ v) with
+        | some x => simp [hg] at h
+        | none => simp only [hg] at h ⊢; exact ih h
+    rw [hnone sc.stack (hsc _)] at hf
+    cases hf
 
 /-- binding one Soy variable `x` to the JavaScript local `g` (what `{let}`, `{foreach}` and `{for}`
     do): the relation is kept, provided `g` is FRESH — not the local of any other visible variable -/
 theorem envRel_bind (sc sc' : Scope) (env : Spec.Eval.Env) (jenv : JEnv) (x g : Bytes) (v : Val) (jv : JVal)
-    (hrel : EnvRel sc env jenv) (hv : toJsV v = some jv)
+    (hrel : VarRel sc env jenv) (hv : toJsV v = some jv)
     (hx : sc'.lookup x = some g)
     (hother : ∀ k, k ≠ x → k.contains 36 = false → sc'.lookup k = sc.lookup k)
     (hfresh : ∀ k g', k ≠ x → k.contains 36 = false → sc.lookup k = some g' → g' ≠ g) :
-    EnvRel sc' (env.bind x v) { jenv with locals := (g, jv) :: jenv.locals } := by
+    VarRel sc' (env.bind x v) { jenv with locals := (g, jv) :: jenv.locals } := by
   intro k hk hd
   by_cases hkx : k = x
   · subst hkx
@@ -1479,8 +1768,8 @@ theorem makevar_lookup (sc : Scope) (f : Frame) (st : List Frame) (hst : sc.stac
 /-- the relation is kept by `{let $x: e /}` (value `v`, its image assigned to the generated local) -/
 theorem envRel_let (sc : Scope) (env : Spec.Eval.Env) (jenv : JEnv) (f : Frame) (st : List Frame)
     (hst : sc.stack = f :: st) (hs : ScopeShape sc) (x : Bytes) (hx : x.contains 36 = false)
-    (v : Val) (jv : JVal) (hrel : EnvRel sc env jenv) (hv : toJsV v = some jv) :
-    EnvRel (sc.makevar x).2 (env.bind x v) { jenv with locals := ((sc.makevar x).1, jv) :: jenv.locals } := by
+    (v : Val) (jv : JVal) (hrel : VarRel sc env jenv) (hv : toJsV v = some jv) :
+    VarRel (sc.makevar x).2 (env.bind x v) { jenv with locals := ((sc.makevar x).1, jv) :: jenv.locals } := by
   refine envRel_bind sc _ env jenv x _ v jv hrel hv ?_ ?_ ?_
   · rw [makevar_lookup sc f st hst]; simp
   · intro k hk _
@@ -1522,8 +1811,8 @@ theorem pushForEach_lookup (sc : Scope) (x k : Bytes) (hk : k.contains 36 = fals
   · simp [h, frameGet?]
 
 theorem envRel_foreach (sc : Scope) (env : Spec.Eval.Env) (jenv : JEnv) (hs : ScopeShape sc) (x : Bytes)
-    (hx : x.contains 36 = false) (v : Val) (jv : JVal) (hrel : EnvRel sc env jenv) (hv : toJsV v = some jv) :
-    EnvRel (sc.pushForEach x).2 (env.bind x v) { jenv with locals := ((sc.pushForEach x).1.1, jv) :: jenv.locals } := by
+    (hx : x.contains 36 = false) (v : Val) (jv : JVal) (hrel : VarRel sc env jenv) (hv : toJsV v = some jv) :
+    VarRel (sc.pushForEach x).2 (env.bind x v) { jenv with locals := ((sc.pushForEach x).1.1, jv) :: jenv.locals } := by
   refine envRel_bind sc _ env jenv x _ v jv hrel hv ?_ ?_ ?_
   · rw [pushForEach_lookup sc x x hx]; simp
   · intro k hk hd
@@ -1604,7 +1893,7 @@ theorem fresh_at (b : Bytes) (s : St) (hs : J b s) (x use : Bytes) (n : Nat) (hx
   * floats (the JavaScript value universe here has exact integers only): `round(x, n)`, `floor` /
     `ceiling` / `round` / `min` / `max` of floats, float arithmetic and printing;
   * the other functions (`keys`, `augmentMap`, `strContains`, `range`, `randomInt`, the bidi
-    functions), `isFirst` / `isLast` / `index` (they need the loop index / limit locals in the relation),
+    functions),
     list and map literals, globals;
   * `range`-loops in `envRel_*` (only `{let}` and `{foreach}` are instantiated; `{for … in range}` is
     the same `envRel_bind` with `pushForRange`), let-CONTENT variables (their value is the text the
